@@ -20,10 +20,10 @@ def showVerdict : Verdict → String
   | .claimOther => "err-claim-other"
   | .sealOther => "err-seal-other"
   | .verifierInfo => "err-verifier-info"
+  | .parentUnknown => "err-parent"
+  | .epochLower => "err-epoch-lower"
 
 def H := HashRef.blake2b256
-
-def randOf (rb : Nat) : Bytes := List.replicate 32 (UInt8.ofNat rb)
 
 def preOf (kind idx slot : Nat) : Option PreDigest :=
   match kind with
@@ -49,6 +49,8 @@ def oraclesOf (s : String) : Option Oracles :=
   match s.toList with
   | ['o', '=', a, b, v, l] => some ⟨a = '1', b = '1', triOf v, triOf l⟩
   | _ => none
+
+def allNat (ws : List String) : Option (List Nat) := ws.mapM String.toNat?
 
 def stepV (f : List Nat) (o : Oracles) : String :=
   match f with
@@ -81,10 +83,79 @@ def stepOwn (f : List Nat) (bits : String) : String :=
       if outs.isEmpty then "none" else ",".intercalate outs
   | _ => "bad-op"
 
-def allNat (ws : List String) : Option (List Nat) := ws.mapM String.toNat?
+
+/-! manager lines: `mgr G=<n>,<koff>,<rb>,<c1>,<c2>,<ss> A=.. B=..|vb ..;dis ..` -/
+
+def descOf (s : String) : Option Desc :=
+  match (String.ofList (s.toList.drop 2)).splitOn "," |>.mapM String.toNat? with
+  | some [n, _koff, rb, c1, c2, ss] => if n > 7 then none else some ⟨n, rb % 256, c1, c2, ss⟩
+  | _ => none
+
+def branchOf (s : String) : Option Branch :=
+  if s = "A" then some .A else if s = "B" then some .B else none
+
+def parentOf (s : String) : Option Parent :=
+  if s = "g" then some .genesis else if s = "x" then some .unknown
+  else if s = "1" then some (.blk 1) else if s = "2" then some (.blk 2) else if s = "3" then some (.blk 3)
+  else none
+
+def showDis : DisResult → String
+  | .ok => "ok" | .index => "err-index" | .already => "err-already-disabled"
+  | .verifierInfo => "err-verifier-info"
+
+def opOf (ws : List String) : Option Op :=
+  match ws with
+  | ["vb", x, par, epoch, slot, kind, idx, _vs, _vt, _sl, _st, shape, o] =>
+    match branchOf x, parentOf par, allNat [epoch, slot, kind, idx, shape], oraclesOf o with
+    | some br, some p, some [epoch, slot, kind, idx, shape], some o =>
+      some (.vb ⟨br, p, epoch, digestOf shape (.pre (preOf kind idx slot)), o⟩)
+    | _, _, _, _ => none
+  | ["dis", x, k, idx] =>
+    match branchOf x, k.toNat?, idx.toNat? with
+    | some br, some k, some idx => if 1 ≤ k ∧ k ≤ 3 ∧ idx < 2 ^ 32 then some (.dis br k idx) else none
+    | _, _, _ => none
+  | _ => none
+
+/-- model output, spec output, known-finding hit of one op -/
+def opOut (env : Env) (st : MState) (op : Option Op) : MState × String × String × Bool :=
+  match op with
+  | none => (st, "bad-op", "bad-op", false)
+  | some (.vb b) =>
+    let m := verifyBlock H env b
+    let a := blockAuthorised H env b
+    if m = .ok ∧ a = false then (st, "ok", "err-bad-slot-claim", true)
+    else if m ≠ .ok ∧ a = true then (st, showVerdict m, "ok", false)
+    else (st, showVerdict m, showVerdict m, false)
+  | some (.dis br k idx) =>
+    let r := setOnDisabled env st br k idx
+    (r.1, showDis r.2, showDis r.2, false)
+
+def stepMgr (line : String) : String :=
+  match line.splitOn "|" with
+  | [hdr, body] =>
+    match words hdr with
+    | ["mgr", g, a, b] =>
+      match descOf g, descOf a, descOf b with
+      | some dg, some da, some db =>
+        let env : Env := ⟨dg, da, db⟩
+        let (_, ms, ss, kf) := (body.splitOn ";").foldl
+          (fun (acc : MState × List String × List String × Bool) opS =>
+            let (st, ms, ss, kf) := acc
+            let (st', m, s, k) := opOut env st (opOf (words opS))
+            (st', ms ++ [m], ss ++ [s], kf || k))
+          (MState.init, [], [], false)
+        let m := ";".intercalate ms
+        let s := ";".intercalate ss
+        if m = s then m
+        else if kf then s!"{m}\tspec={s}\tkf=secondary-kind-not-checked"
+        else s!"{m}\tspec={s}"
+      | _, _, _ => "bad-op"
+    | _ => "bad-op"
+  | _ => "bad-op"
 
 def step (line : String) : String :=
   match words line with
+  | "mgr" :: _ => stepMgr line
   | "v" :: rest =>
     if rest.length ≠ 17 then "bad-op" else
     match allNat (rest.take 16), oraclesOf (rest.getD 16 "") with
